@@ -262,24 +262,24 @@ CHECKS = {
 # Capabilities added after the round of independently written breaking changes (DESIGN.md 10.7); appended to the level text.
 ADDENDA = {
     "C02": " A record of an unexpectedly panicked operation is rejected as such (the history ends there).",
-    "C04": " The quick tier also runs the full-slab placement and every drop program with all scripted objects held through type-erased (.erase()) handles.",
+    "C04": " The quick tier also runs the full-slab placement and every drop program with all scripted objects held through type-erased (.erase()) handles. insert_with is also placed at the last vacant slot of its slab, and a multi-threaded run (destructor panics on one thread while three threads call len() and one inserts/drops on the same pool) is judged by the same abstract spec (JRace).",
     "C05": " Receiver programs also re-poll with the SAME waker object (Waker::will_wake true; scripted wakers share one data pointer between a waker "
            "and its clones and are never freed, so a double release is an event for the judge); a crash of the code under test is recorded as a run that did not terminate.",
     "C06": " Same-waker re-polls and crash-as-data as in C05.",
     "C07": " Programs also re-poll with the same waker object; a waker released twice is counted by the judge (leaked, Arc-like scripted wakers); a crash of "
            "the process is a run that did not terminate.",
     "C10": " Histories also contain pins the (harness) kernel refuses - nothing may change and the call may not return normally - and plain threads that inherit "
-           "their creator's OS affinity and pin themselves; a 'full' embedding replays the set of all abstract processors as every processor of the instance.",
+           "their creator's OS affinity and pin themselves; a 'full' embedding replays the set of all abstract processors as every processor of the instance. Pin sets reach the library through filter() or take_exact (descending / first-and-last-from-one-region order), and hardware instances created at the same moment on 4 threads are used in turn by a fresh thread (instance identity).",
     "C12": " PerThread.tla also explores instance factories that re-enter acquire() on the same wrapper on the same thread and keep the reference (acqr).",
     "C14": " Spawn wake-ups are modelled with event-listener's additive / non-additive notify semantics (switch NotifyAdditional read from the source); bound G "
            "(1 processor x 2 workers, a task body that returns only after another task ran) checks NoIdleLost: no worker sleeps un-notified next to queued work "
-           "while the others are busy (finding S16, fixed).",
+           "while the others are busy (finding S16, fixed). Every task closure owns a guard whose destructor spawns on the same scheduler when the closure is destroyed without having run (abandoned at shutdown / refused).",
     "C15": " The trace-level RC11 layer gives every remote wake a publication of its own and obliges the poll after the consuming check_activated to see the "
-           "publication of every wake that touched the activation flag in any way (load, swap, CAS).",
+           "publication of every wake that touched the activation flag in any way (load, swap, CAS). Many-future stimuli (33..48 futures woken remotely between two polls, MaxF = 48) and task wakers of an executor that holds a per-task lock while polling and takes it in wake().",
     "C18": " Two threads creating the same new operation: the harness's own global allocator parks the first inside each allocation of Session::operation() while "
-           "the second creates the operation and records a span; both spans must reach the report.",
+           "the second creates the operation and records a span; both spans must reach the report. The wrapped allocator refuses one request in ten (null; still forwarded and counted), and a second harness binary installs the tracker as the global allocator: threads whose registration falls inside an open process span, thread ordinals across registry growth.",
     "C19": " Free-running readers (get/list) race a writer storing a 24 MiB incompressible object with no hook involved, and the crash matrix, round trips and "
-           "races are repeated for a key directly under the store root.",
+           "races are repeated for a key directly under the store root. Compressible payloads around the 32 KiB deflate window, and a file-size-limit fault (EFBIG) both on an early chunk of a large store and on a store that is a single buffered chunk.",
     "C20": " Benjamini-Hochberg families that sit exactly on the threshold (n equal p-values q/2^j in a family of n*2^j, non-dyadic q: exact in f64), completely "
-           "separated samples whose exact tail lies below the reportable floor, and medians of exactly scaled samples next to f64::MAX / among the subnormals.",
+           "separated samples whose exact tail lies below the reportable floor, and medians of exactly scaled samples next to f64::MAX / among the subnormals. Beyond the exhaustive bound: Theil-Sen / median / Mann-Kendall S exactly on 8..13 noisy points; Mann-Kendall on block-structured series of 300..4000 points (closed-form S and variance, multi-limb arithmetic, p a decreasing function of the exact statistic); the permutation component of the selection-adjusted p judged exactly for <= 5 points and a sample of 6.",
 }
